@@ -1,7 +1,101 @@
-(* WireMac.v — wire interfaces of the "mac" area (see docs/AGENT_GUIDE.md for the id range).
-   [run_mac c] receives the whole case (first element = interface id). *)
+(* WireMac.v — wire interfaces of the "mac" area (ids 50-59): syntax-rules (C17).
+   [run_mac c] receives the whole case (first element = interface id).
+
+     50 n d_1..d_n u_1..   parse both texts, Transform::try_new on the define-syntax datum,
+                           Transform::transform on the use: the expansion in write form
+     51 n d_1..d_n u_1..   the same through the expansion driver of compile.rs and the
+                           evaluation of the resulting (quote X): the value X in write form
+   Lines: OK <text>, ERR parse, ERR def, ERR use, PANIC, NOFUEL (stands for a hang).   *)
 From Coq Require Import String.
-From MW Require Import Model.Base Model.Datum.
+From MW Require Import Model.Base Model.Datum Model.Lex Model.Parse Model.TransformDef Model.Transform Model.SRSpec.
 Open Scope N_scope.
 
-Definition run_mac (c : list N) : list N := S_ "BADCASE".
+Fixpoint split_at (n : N) (fuel : nat) (l : list N) (acc : list N) : option (list N * list N) :=
+  if n =? 0 then Some (rev acc, l) else
+  match fuel, l with
+  | S f, x :: r => split_at (n - 1) f r (x :: acc)
+  | _, _ => None
+  end.
+
+Definition parse_one (t : text) : option cell :=
+  match parse_text t with
+  | Ok (c, None) => Some c
+  | _ => None
+  end.
+
+Definition show_mac (stage : list N) (o : out cell) : list N :=
+  match o with
+  | Ok c => S_ "OK " ++ esc_text (write c)
+  | Err _ => stage
+  | Panic _ => S_ "PANIC"
+  | NoFuel => S_ "NOFUEL"
+  end.
+
+(* interface 50 *)
+Definition mac_direct (d u : cell) : list N :=
+  match transform_try_new d with
+  | Ok tr => show_mac (S_ "ERR use") (transform_apply tr u)
+  | Err _ => S_ "ERR def"
+  | Panic _ => S_ "PANIC"
+  | NoFuel => S_ "NOFUEL"
+  end.
+
+(* interface 51: Vm::eval of the definition, then of the use.  Only the part of the
+   evaluation the property observes is modelled: the use is a form headed by the
+   keyword, the driver expands it, and the expansion is (quote X), whose value is X.
+   Everything else is outside the generator and prints UNMODELLED. *)
+Definition mac_eval (d u : cell) : list N :=
+  match transform_try_new d with
+  | Ok tr =>
+      let lookup (c : cell) := if cell_eqb c (transform_keyword tr) then Some tr else None in
+      match u with
+      | CPair h _ =>
+          if cell_eqb h (transform_keyword tr) && negb (sym_is h QUOTE)
+             && negb (sym_is h (S_ "define-syntax"%string)) then
+            match vm_transform lookup 16 u with
+            | Ok (CPair q (CPair x CNil)) =>
+                if sym_is q QUOTE then S_ "OK " ++ esc_text (write x) else S_ "UNMODELLED"
+            | Ok _ => S_ "UNMODELLED"
+            | Err _ => S_ "ERR use"
+            | Panic _ => S_ "PANIC"
+            | NoFuel => S_ "NOFUEL"
+            end
+          else S_ "UNMODELLED"
+      | _ => S_ "UNMODELLED"
+      end
+  | Err _ => S_ "ERR def"
+  | Panic _ => S_ "PANIC"
+  | NoFuel => S_ "NOFUEL"
+  end.
+
+(* interface 52 (model only): the SPECIFICATION's answer for the same case, used to
+   cross-check Model/SRSpec.v against the independent Python oracle *)
+Definition mac_spec (d u : cell) : list N :=
+  match transform_try_new d with
+  | Ok tr =>
+      match spec_of_transform tr u with
+      | SpecOk c => S_ "SPEC OK " ++ esc_text (write c)
+      | SpecNoMatch => S_ "SPEC NOMATCH"
+      | SpecInvalid => S_ "SPEC INVALID"
+      | SpecExcluded => S_ "SPEC EXCLUDED"
+      end
+  | _ => S_ "SPEC DEFERR"
+  end.
+
+Definition run_mac (c : list N) : list N :=
+  match c with
+  | id :: n :: rest =>
+      match split_at n (length rest) rest [] with
+      | Some (dt, ut) =>
+          match parse_one dt, parse_one ut with
+          | Some d, Some u =>
+              if id =? 50 then mac_direct d u
+              else if id =? 51 then mac_eval d u
+              else if id =? 52 then mac_spec d u
+              else S_ "BADCASE"
+          | _, _ => if (id =? 50) || (id =? 51) then S_ "ERR parse" else S_ "BADCASE"
+          end
+      | None => S_ "BADCASE"
+      end
+  | _ => S_ "BADCASE"
+  end.
